@@ -23,7 +23,7 @@ const rule = "streams of 10-60 healthy concurrent requests (GET/POST, bodies up 
 	"fault kinds x injection points: pending list (5xx, garbage JSON, truncated reply, dropped connection, non-HTTP reply), request fetch (connection dropped on every attempt / on the first only, non-HTTP reply, reset mid-body, 404, 5xx x1-3, truncated or garbled " +
 	"wire request, missing start-time header, unparsable start time), backend (accept-then-close before/after reading, garbage status line, " +
 	"headers without end, bad chunk size, short Content-Length, reset mid-body, 2 MiB header, 1xx flood), upload (5xx x1-3, connection reset), " +
-	"shim endpoints (malformed JSON, wrong JSON types, unknown IDs, 1 MiB bodies on open/data/poll/close, a real session fed messages of odd shapes, and shim opens whose backend drops the handshake, answers garbage, half an answer or 403, or is unreachable), plus a second agent whose backend " +
+	"shim endpoints (malformed JSON, wrong JSON types, unknown IDs, 1 MiB bodies on open/data/poll/close, a real session fed messages of odd shapes, and shim opens whose backend drops the handshake, answers garbage, half an answer or 403, or is unreachable; uploads of streamed responses turned down with 404/400 right after the headers, once or 70 times in a row), plus a second agent whose backend " +
 	"port is closed (502 expected); agent binary runs with shim and session tracking on; invariant over the history: agent alive, no " +
 	"race/fatal/panic, every healthy request uploaded once with its own content; non-trivial = a fault overlapping a healthy request in " +
 	"time (measured); distinct = SHA-256 of the canonical case"
@@ -42,7 +42,7 @@ var faultKinds = []string{
 	"backend-close-before-read", "backend-close-after-read", "backend-garbage-status", "backend-endless-header", "backend-bad-chunk",
 	"backend-short-length", "backend-reset-mid-body", "backend-huge-header", "backend-1xx-flood",
 	"backend-status-099", "backend-status-000", "backend-status-999", "backend-conflicting-lengths",
-	"upload-5xx-1", "upload-5xx-3", "upload-reset",
+	"upload-5xx-1", "upload-5xx-3", "upload-reset", "upload-404-early", "upload-400-early", "upload-404-early-x70",
 	"shim-open-garbage", "shim-data-malformed", "shim-data-wrong-type", "shim-data-unknown-id", "shim-poll-unknown-id", "shim-poll-malformed",
 	"shim-close-unknown-id", "shim-close-wrong-type", "shim-data-huge", "shim-open-unreachable-path", "shim-session-odd-messages",
 	"shim-open-backend-drops", "shim-open-backend-garbage", "shim-open-backend-403", "shim-open-backend-half-answer", "shim-open-backend-unreachable",
@@ -251,6 +251,14 @@ func getRig(t vh.TB) *rig {
 				return false
 			}
 			w.WriteHeader(502)
+		case "upload-404-early", "upload-400-early":
+			// turned down right after the request headers, without reading the body
+			w.Header().Set("Connection", "close")
+			if f == "upload-400-early" {
+				w.WriteHeader(400)
+			} else {
+				w.WriteHeader(404)
+			}
 		case "upload-reset":
 			if hj, ok := w.(http.Hijacker); ok {
 				if c, _, err := hj.Hijack(); err == nil {
@@ -361,9 +369,30 @@ func (r *rig) runFault(kind, tok string) error {
 		r.fetchFault[id] = kind
 		r.mu.Unlock()
 		wait = 1 * time.Second
+	case kind == "upload-404-early-x70":
+		// many requests over the life of the agent whose (streamed) responses the proxy turns down early
+		for k := 0; k < 70; k++ {
+			stok := fmt.Sprintf("%s-x%d", tok, k)
+			sid := "id-" + stok
+			r.mu.Lock()
+			r.upFault[sid] = "upload-404-early"
+			r.scripts[stok] = streamedResponse
+			r.mu.Unlock()
+			q := r.fp.Submit(sid, "", "GET", []byte(fmt.Sprintf("GET /faulty/%s HTTP/1.1\r\nHost: c07.example\r\n%s: %s\r\n\r\n", stok, vh.TokenHeader, stok)))
+			q.Wait(60 * time.Millisecond)
+			r.fp.Forget(sid)
+			r.mu.Lock()
+			delete(r.scripts, stok)
+			delete(r.upFault, sid)
+			r.mu.Unlock()
+		}
+		return nil
 	case strings.HasPrefix(kind, "upload-"):
 		r.mu.Lock()
 		r.upFault[id] = kind
+		if strings.HasSuffix(kind, "-early") {
+			r.scripts[tok] = streamedResponse
+		}
 		r.mu.Unlock()
 		wait = 1 * time.Second
 	case strings.HasPrefix(kind, "backend-"):
@@ -459,6 +488,22 @@ func (r *rig) runFault(kind, tok string) error {
 	q := r.fp.Submit(id, "", method, []byte(wire))
 	q.Wait(wait)
 	return nil
+}
+
+// streamedResponse: 128 KiB in chunks, so that body bytes are still outstanding when the upload is turned down.
+func streamedResponse(rq *vh.RawRequest, c net.Conn) bool {
+	c.Write([]byte("HTTP/1.1 200 OK\r\nContent-Type: application/octet-stream\r\nTransfer-Encoding: chunked\r\n\r\n"))
+	chunk := bytes.Repeat([]byte("s"), 32768)
+	c.SetWriteDeadline(time.Now().Add(10 * time.Second))
+	for k := 0; k < 4; k++ {
+		fmt.Fprintf(c, "%x\r\n", len(chunk))
+		if _, err := c.Write(chunk); err != nil {
+			return false
+		}
+		c.Write([]byte("\r\n"))
+	}
+	c.Write([]byte("0\r\n\r\n"))
+	return true
 }
 
 func backendFault(kind string) func(rq *vh.RawRequest, c net.Conn) bool {
